@@ -96,13 +96,17 @@ class Ctx:
             raise Undecided("driver %s failed rc=%d: %s" % (args[0], r.returncode, (r.stderr or r.stdout)[-2000:]))
         return r
 
-    def spawn(self, argv, env=None):
+    def spawn(self, argv, env=None, stderr_path=None):
         """Start a driver with stdout/stderr going to files (never pipes: the library prints diagnostics on stdout,
         and a full pipe would block the library call that prints them)."""
         self._nspawn = getattr(self, "_nspawn", 0) + 1
         base = os.path.join(self.scratch, "proc-%d" % self._nspawn)
         fo, fe = open(base + ".out", "w+"), open(base + ".err", "w+")
-        p = subprocess.Popen([str(a) for a in argv], cwd=self.scratch, env=env or self.env, stdout=fo, stderr=fe, text=True)
+        # stderr_path: a device the driver's standard error is connected to instead (e.g. /dev/full: every write fails)
+        fe2 = open(stderr_path, "w") if stderr_path else None
+        p = subprocess.Popen([str(a) for a in argv], cwd=self.scratch, env=env or self.env, stdout=fo, stderr=fe2 or fe, text=True)
+        if fe2:
+            fe2.close()
         p._files = (fo, fe, base)
         return p
 
